@@ -257,7 +257,7 @@ func init() {
 	register("C13", newC13)
 	register("C14", newC14)
 	register("C18", newC18)
-	register("C19", newC19)
+	register("C19", newC19, newC19Conc)
 	register("C15", newC15)
 	register("C16", newC16)
 	register("C17", newC17)
